@@ -225,20 +225,20 @@ def cases(rng, tier):
     quick = tier == "quick"
     # exhaustive small domains for the two helper functions
     fp_alpha = [0x3c, 0x3e, 0x20, 0x61, 0x2c]
-    for n in range(0, (5 if quick else 7)):
+    for n in range(0, (5 if quick else 6)):
         for t in itertools.product(fp_alpha, repeat=n):
             if quick and n == 4 and rng.random() < 0.5:
                 continue
             yield {"kind": "fix", "t": bytes(t)}
     sl_alpha = [0x0a, 0x0d, 0x0b, 0x1c, 0xc2, 0x85, 0xe2, 0x80, 0xa8, 0xa9, 0x61]
-    for n in range(0, (3 if quick else 5)):
+    for n in range(0, (3 if quick else 4)):
         for t in itertools.product(sl_alpha, repeat=n):
             yield {"kind": "lines", "t": bytes(t)}
     for _ in range(150 if quick else 3000):
         yield {"kind": "lines", "t": _rbytes(rng, sl_alpha + [0x0c, 0x1d, 0x1e, 0xff, 0x20], 3, 9)}
     # roundtrip.py: extract_bzr_metadata / inject_bzr_metadata
     mk_alpha = [b"\n", b"--BZR--", b"-", b"BZR", b"a", b"\n--BZR--\n", b" "]
-    for _ in range(100 if quick else 3000):
+    for _ in range(100 if quick else 2000):
         head = b"".join(rng.choice(mk_alpha) for _ in range(rng.randint(0, 5)))
         r = rng.random()
         if r < 0.4:
@@ -250,17 +250,17 @@ def cases(rng, tier):
         yield {"kind": "meta", "m": head + tail, "revid": rng.choice([None, b"rev-%d" % rng.randint(0, 99)]),
                "props": [[b"p%d" % i, rng.choice([b"v", b"x y", b""])] for i in range(rng.randint(0, 2))]}
     # UTF-8 validity boundary: the message decides between utf-8 / latin1 fallback / UnicodeDecodeError
-    for _ in range(200 if quick else 3000):
+    for _ in range(200 if quick else 2000):
         m = _rbytes(rng, U8B, 1, 5)
         yield mk(message=m, encoding=rng.choice([None, None, b"utf-8", b"false"]))
-    for _ in range(40 if quick else 800):
+    for _ in range(40 if quick else 500):
         a = b"N" + _rbytes(rng, U8B, 1, 4) + b" <e@x>"
         yield mk(author=a, committer=rng.choice([a, BASE["committer"]]), encoding=rng.choice([None, b"utf-8", b"latin1"]))
     # mostly round-tripping commits
-    for _ in range(320 if quick else 4500):
+    for _ in range(320 if quick else 3000):
         yield _gen_commit(rng, 0.0)
     # commits with the features that break the round trip switched on
-    for _ in range(260 if quick else 3700):
+    for _ in range(260 if quick else 2500):
         yield _gen_commit(rng, 0.35)
 
 
